@@ -309,18 +309,7 @@ class World:
         for p in paths:
             if p in ("/", ""):
                 continue
-            # skip paths running through a dataset (IH5 raises, h5py says False: not judged)
-            segs = p.strip("/").split("/")
-            through_ds = False
-            for i in range(1, len(segs)):
-                q = "/" + "/".join(segs[:i])
-                try:
-                    if q in want and not hasattr(want[q], "keys"):
-                        through_ds = True
-                except Exception:
-                    through_ds = True
-            if through_ds:
-                continue
+            # paths running through a dataset are simply absent (h5py: "in" False, get None)
             try:
                 exp = p in want
             except Exception:
